@@ -170,7 +170,12 @@ def contents_predicates(ctx, rule):
               "get_source_contents(id) is Some only when the slot exists *and* holds contents (Option<Option<_>> flattened with and_then; an empty slot reads as no contents)", detail=str(rets))
     sg = ctx.body("types::SourceMap::get_source_contents")
     calls = [q.shape(sg.expr_of_call(t)) for bi, t in sg.calls()]
-    ok = any(c == "Option::and_then(slice::get(arg1.sources_content,cast<usize>(arg2)),fn:Option::as_ref)" for c in calls)
+    FLAT_ = "Option::and_then(slice::get(arg1.sources_content,cast<usize>(arg2)),fn:Option::as_ref)"
+    ok = any(c == FLAT_ for c in calls)
+    if not ok and "SourceMap::get_source_view(arg1,arg2)" in calls:
+        # through get_source_view, which does the flattening (with and_then, or with `?` on the slot)
+        sv = ctx.body("types::SourceMap::get_source_view")
+        ok = q.fold_question(sorted(sh for sh, _, _ in q.def_shapes(sv, 0, {}))) == [FLAT_]
     ctx.check(ok, rule, sg.path, "map:get_source_contents", "SourceMap::get_source_contents(id) likewise flattens a missing slot and an empty slot to None", detail=str(calls)[:300])
 
 
@@ -194,15 +199,24 @@ def strip_prefixes(ctx, rule):
     fn = b.path
     src = named(b, lambda s: s == "try(Iterator::next(var:IterMut<Arc<str>>))")
     pfx = [l for l in sorted(b.var_names) if b.locals[l]["mut"] and b.local_ty(l) == "alloc::string::String"]
-    if not ctx.check(len(src) == 1 and len(pfx) == 1, rule, fn, "roles", "source slot and normalised prefix are recognisable"):
+    cow = [l for l in sorted(b.var_names) if b.local_ty(l).startswith("alloc::borrow::Cow<") and b.local_ty(l).endswith("str>") and len(b.defs.get(l, [])) == 2] if not pfx else []
+    if not ctx.check(len(src) == 1 and (len(pfx) == 1 or len(cow) == 1), rule, fn, "roles", "source slot and normalised prefix are recognisable"):
         return
-    roles = {src[0]: "source", pfx[0]: "prefix"}
+    roles = {src[0]: "source", (pfx or cow)[0]: "prefix"}
     sl = [(bi, q.shape(b.expr_of_call(t), roles)) for bi, t in q.calls_to(b, "Index::index")]
-    ctx.check([s for _, s in sl] == ["source[RangeFrom{start:String::len(prefix)}]"], rule, fn, "slice", "the stripped name is source[prefix.len()..]", detail=str(sl))
+    ctx.check(sorted(set(s for _, s in sl)) in (["source[RangeFrom{start:String::len(prefix)}]"], ["source[RangeFrom{start:str::len(prefix)}]"]), rule, fn, "slice", "the stripped name is source[prefix.len()..]", detail=str(sl))
     for bi, s in sl:
         ctx.check(has_fact(b, bi, roles, ("true", "str::starts_with(source,prefix)", None)), rule, fn, "slice:guard", "only when the source starts with that same prefix", ctx.site(b, bi))
-    pushes = [(bi, q.shape(b.expr_of_call(t), roles)) for bi, t in q.calls_to(b, "String::push")]
-    ok = [s for _, s in pushes] == ["String::push(prefix,47)"] and all(has_fact(b, bi, roles, ("false", "str::ends_with(prefix,47)", None)) for bi, _ in pushes)
+    if pfx:
+        pushes = [(bi, q.shape(b.expr_of_call(t), roles)) for bi, t in q.calls_to(b, "String::push")]
+        ok = [s for _, s in pushes] == ["String::push(prefix,47)"] and all(has_fact(b, bi, roles, ("false", "str::ends_with(prefix,47)", None)) for bi, _ in pushes)
+    else:
+        # the same normalisation as a value: the prefix borrowed when it ends in '/', otherwise format!("{prefix}/")
+        P = "try(Iterator::next(var:Iter<S>))"
+        ds = {sh: site for sh, site, _ in q.def_shapes(b, cow[0], {})}
+        owned = 'Cow::Owned{0:hint::must_use(fmt::format(Arguments::new(b"\\xc0\\x01/\\x00",array(Argument::new_display(tuple(%s).0)))))}' % P
+        ok = set(ds) == {"Cow::Borrowed{0:%s}" % P, owned} and has_fact(b, ds["Cow::Borrowed{0:%s}" % P][0], {}, ("true", "str::ends_with(%s,47)" % P, None)) \
+            and has_fact(b, ds[owned][0], {}, ("false", "str::ends_with(%s,47)" % P, None))
     ctx.check(ok, rule, fn, "slash", "a '/' is appended to the prefix exactly when it is missing")
     # break after first hit: from the assignment, the inner loop's next() is not reached before the outer next()
     inner = [bi for bi, t in q.calls_to(b, "Iterator::next") if "Iter<S>" in q.shape(q.arg_expr(b, t, 0))]
@@ -224,10 +238,22 @@ def hermes_permutation(ctx, rule):
     want = "Iterator::collect(Iterator::map(slice::iter(mapping),%s))" % (TAKE % "^var:Vec<Option<HermesFunctionMap>>")
     allcalls = [(bi, q.shape(b.expr_of_call(t), roles)) for bi, t in b.calls()]
     ok = want in shapes or any(sh == want for _, sh in allcalls)
+    loop_sites = []
+    if not ok:
+        # the same written as loops: a fresh vector filled by one push per element of the mapping
+        from rules.common import filled_by_loop
+        ELEM = "Option::and_then(slice::get_mut(%s,cast<usize>(p1)),fn:Option::take)"
+        for l in sorted(b.var_names):
+            if "HermesFunctionMap" not in b.local_ty(l):
+                continue
+            fl = filled_by_loop(b, l, roles)
+            if fl is not None and fl[0] == "mapping" and fl[1] == ELEM % "var:Vec<Option<HermesFunctionMap>>" and any(sh == "var:Vec<Option<HermesFunctionMap>>" for x in fm for sh, _, _ in q.def_shapes(b, x, roles)):
+                ok = True
+                loop_sites.append((fl[2], 0))
     ctx.check(ok, rule, fn, "function_maps:by-mapping", "function maps are rebuilt by mapping over the old-id mapping; each entry is looked up with the non-panicking get_mut at the old id and taken", detail=str(shapes)[:400])
     # the permutation must not be skipped when the lengths are equal (the common case: one entry
     # per source): the only guard allowed around it is mapping.len() <= function_maps.len()
-    sites = [site for l in fm for sh, site, _ in q.def_shapes(b, l, roles) if sh == want] or [(bi, 0) for bi, sh in allcalls if sh == want]
+    sites = [site for l in fm for sh, site, _ in q.def_shapes(b, l, roles) if sh == want] or [(bi, 0) for bi, sh in allcalls if sh == want] or loop_sites
     for site in sites:
         conds = [f for f in q.facts_at(b, site[0], {**roles, **{l: "fmaps" for l in fm}}) if f.op in ("Lt", "Le", "Eq", "Ne", "true", "false")]
         bad = [f for f in conds if f.key() not in (("Le", "Vec::len(mapping)", "Vec::len(fmaps)"),)]
@@ -237,7 +263,18 @@ def hermes_permutation(ctx, rule):
     want_raw = "Option::map(var:Option<Vec<Option<Vec<FacebookScopeMapping>>>>,%s(Iterator::collect(Iterator::map(IntoIterator::into_iter(^%s),%s))))" % (LAM, MAPPING, TAKE % "^arg2")
     raws += [q.shape(b.expr_of_call(t)) for bi, t in b.calls()]
     want_raw2 = want_raw.replace("var:Option<Vec<Option<Vec<FacebookScopeMapping>>>>", "arg1.raw_facebook_sources")
-    ctx.check(want_raw in raws or want_raw2 in raws, rule, fn, "raw_sources:by-mapping", "the raw x_facebook_sources are permuted by the same mapping, each entry looked up with the non-panicking get_mut at the old id", detail=str(raws)[:500])
+    ok_raw = want_raw in raws or want_raw2 in raws
+    if not ok_raw:
+        from rules.common import filled_by_loop
+        for l in sorted(b.var_names):
+            if "FacebookScopeMapping" not in b.local_ty(l) or not b.local_ty(l).startswith("alloc::vec::Vec<"):
+                continue
+            fl = filled_by_loop(b, l, roles)
+            if fl is not None and fl[0] == "mapping" and fl[1] == "Option::and_then(slice::get_mut(var:Vec<Option<Vec<FacebookScopeMapping>>>,cast<usize>(p1)),fn:Option::take)":
+                # the taken-out sources are the old table, the result goes back into the field, and nothing but "was there a table" guards it
+                olds = [sh for x in sorted(b.var_names) for sh, _, _ in q.def_shapes(b, x, {}) if sh in ("try(Option::take(var:Option<Vec<Option<Vec<FacebookScopeMapping>>>>))", "try(var:Option<Vec<Option<Vec<FacebookScopeMapping>>>>)", "try(arg1.raw_facebook_sources)")]
+                ok_raw = bool(olds) and "Option::Some{0:var:Vec<Option<Vec<FacebookScopeMapping>>>}" in raws
+    ctx.check(ok_raw, rule, fn, "raw_sources:by-mapping", "the raw x_facebook_sources are permuted by the same mapping, each entry looked up with the non-panicking get_mut at the old id", detail=str(raws)[:500])
     import pf
     bodies = [b] + [x for x in ctx.facts.closures_of(HREW)]
     pf.check_bodies(ctx, rule, bodies)
@@ -449,9 +486,9 @@ def plain_setters(ctx, rule):
         "types::SourceMap::add_to_ignore_list": ("call", "BTreeSet::insert(arg1.ignore_list,arg2)"),
         B + "set_debug_id": ("store", "debug_id", "arg2"),
         "types::SourceMap::set_debug_id": ("store", "debug_id", "arg2"),
-        B + "set_source_root": ("store", "source_root", "Option::map(arg2,fn:Into::into)"),
-        B + "set_file": ("store", "file", "Option::map(arg2,fn:Into::into)"),
-        "types::SourceMap::set_file": ("store", "file", "Option::map(arg2,fn:Into::into)"),
+        B + "set_source_root": ("store", "source_root", "arg2"),
+        B + "set_file": ("store", "file", "arg2"),
+        "types::SourceMap::set_file": ("store", "file", "arg2"),
     }
     for path, spec in want.items():
         b = ctx.body(path)
@@ -488,7 +525,7 @@ def contents_resize(ctx, rule):
                     aliases.add(l)
             wr = [(bi, q.shape(b.expr_of_rvalue(s["rv"]))) for bi, si, s, it in b.locations() if not it and s["k"] == "assign" and s["place"]["p"] and s["place"]["p"][0]["k"] == "deref" and s["place"]["l"] in aliases]
             rets = b.return_blocks()
-            ok = len(wr) == 1 and all(b.dominates(ix[0], r) and b.dominates(wr[0][0], r) for r in rets) and (wr[0][1].startswith("Option::map(arg3,") or wr[0][1].startswith("Option::map_or(arg3,Option::None") or wr[0][1].startswith("Option::and_then(arg3,"))
+            ok = len(wr) == 1 and all(b.dominates(ix[0], r) and b.dominates(wr[0][0], r) for r in rets) and (wr[0][1] == "arg3" or wr[0][1].startswith("Option::map(arg3,") or wr[0][1].startswith("Option::map_or(arg3,Option::None") or wr[0][1].startswith("Option::and_then(arg3,"))
             ctx.check(ok, rule, fn, "write-unconditional", "the entry is overwritten with the converted argument on every call (None clears it)", detail=str(wr))
 
 
